@@ -311,7 +311,10 @@ class ProcTable:
                     raise t
                 return L(t)
             if name == "fd":
-                return D(lambda: [] if p.zombie else [str(fd) for fd in p.fds])
+                # Linux >= 6.2: st_size of /proc/<pid>/fd = descriptors allocated in the table, which includes numbers a
+                # system call in progress has reserved but not installed yet (those are not listed)
+                return D(lambda: [] if p.zombie else [str(fd) for fd in p.fds],
+                         size=lambda: 0 if p.zombie else len(p.fds) + getattr(p, "fd_reserved", 0))
             if name == "fdinfo":
                 return D(lambda: [] if p.zombie else [str(fd) for fd in p.fds])
             if name == "task":
@@ -330,11 +333,19 @@ class ProcTable:
             fd = p.fds.get(int(rest[1]))
             if fd is None or p.zombie or fd.get("gone") or fd.get("info_gone"):
                 return None
+            fdnum = int(rest[1])
+
+            def fd_gone():
+                # the content is produced at read time: a descriptor closed after the open answers ENOENT (seq_show)
+                e = gone()
+                if e is None and p.fds.get(fdnum) is not fd:
+                    return oserr(errno.ENOENT)
+                return e
             raw = fd.get("info_raw")
             if raw is not None:
-                return F(raw, gone)
+                return F(raw, fd_gone)
             return F(b"pos:\t%d\nflags:\t0%o\nmnt_id:\t10\nino:\t%d\n" % (
-                fd.get("pos", 0), fd.get("flags", 0), fd.get("ino", 100)), gone)
+                fd.get("pos", 0), fd.get("flags", 0), fd.get("ino", 100)), fd_gone)
         if name == "task":
             if not rest[1].isdigit():
                 return None
